@@ -46,6 +46,7 @@ class NullWalk:
                     if isp:
                         self.slots[(("arg", k), off)] = "%s.%s" % (p.get("name") or ("arg%d" % k), path)
         self._seen_find = set()
+        self.unguarded_fields = unguarded_consumer_fields(P)
 
     def slot_of_ptr(self, o):
         """pointer operand -> slot key if it is the address of a tracked slot"""
@@ -164,6 +165,19 @@ class NullWalk:
                                     if sl[0] == b[0]:
                                         nul.pop(sl)
                                         changed = True
+                elif c == "g_array_append_vals" and len(inst.args) >= 2 and me.unguarded_fields:
+                    # a record handed to a list: pointer members that some consumer of such records (free / lookup routine) dereferences
+                    # without a NULL test must not be NULL or uninitialised here
+                    base = me._alloca_of(inst.args[1])
+                    if base is not None:
+                        a_ = fn.insts.get(base[0]) if not isinstance(base[0], tuple) else None
+                        tname = P.di_name(a_.get("ditype", -1)).replace("const ", "") if a_ is not None else None
+                        for sl in list(me.slots):
+                            if sl[0] == base[0] and nul.get(sl) in ("N", "U"):
+                                fld = me.slots[sl].split(".", 1)[1] if "." in me.slots[sl] else None
+                                if fld and tname and ("%s.%s" % (tname, fld)) in me.unguarded_fields:
+                                    me._report(inst, sl, facts, "the record is appended to a list (its consumer %s dereferences the member without a NULL test) with the %s member" % (
+                                        me.unguarded_fields["%s.%s" % (tname, fld)], "NULL" if nul.get(sl) == "N" else "uninitialised"))
                 elif c in FREE_CALLS:
                     for k in FREE_CALLS[c]:
                         if k < len(inst.args):
@@ -343,3 +357,50 @@ def _has_pointer(init):
     if isinstance(init, list):
         return any(_has_pointer(x) for x in init)
     return False
+
+
+_UCF = {}
+
+
+def unguarded_consumer_fields(P):
+    """'Struct.member' -> consumer function, for pointer members of configuration / state records that some routine outside the parsers reads from a
+    record and then dereferences (member->x, or hands to a function that dereferences it) with no NULL test of that member on the way.
+    A record whose such member is NULL must therefore never reach a list."""
+    key = id(P)
+    if key in _UCF:
+        return _UCF[key]
+    out = {}
+    # after a rejected configuration only the stop / free path runs over the records: its routines are the consumers that matter
+    stop_reach = set(P.reachable_functions(["bidib_stop"])) if "bidib_stop" in P.functions else set()
+    for f in P.repo_functions():
+        # ... and of those, the free routines are the ones that see half-built records (lookups only ever see registered, complete entities)
+        if not f.blocks or not f.relfile.startswith("src/state/") or f.name not in stop_reach or "free" not in f.relfile:
+            continue
+        for i in f.all_insts():
+            if i.op != "load" or i["ptr"].get("k") != "inst" or not str(i.get("ty", "")).endswith("*"):
+                continue
+            fp = rules.field_path_of_ptr(P, f, i["ptr"])
+            if not fp or fp.startswith("_G") or not fp.startswith("t_bidib"):
+                continue
+            # is the loaded pointer dereferenced?
+            deref = None
+            for u in f.all_insts():
+                if u.op in ("getelementptr",) and u["base"].get("k") == "inst" and u["base"]["id"] == i.id:
+                    deref = u
+                    break
+                if u.op == "load" and u["ptr"].get("k") == "inst" and u["ptr"]["id"] == i.id:
+                    deref = u
+                    break
+            if deref is None:
+                continue
+            guarded = False
+            for (gd, truth) in list(rules.conditions_at(f, deref)) + rules.control_conditions(f, deref):
+                c = f.resolve(gd["cond"])
+                if c is not None and c.op == "icmp" and c["b"].get("k") == "null":
+                    l = f.resolve(rules.strip_casts(f, c["a"]))
+                    if l is not None and l.op == "load" and rules.field_path_of_ptr(P, f, l["ptr"]) == fp:
+                        guarded = True
+            if not guarded and fp not in out:
+                out[fp] = f.name
+    _UCF[key] = out
+    return out
